@@ -8,18 +8,21 @@ import (
 	"encoding/json"
 	"fmt"
 	"os"
+	"sort"
 	"sync"
+	"sync/atomic"
 )
 
 // Writer is a concurrency-safe NDJSON writer. Emit assigns a global sequence
 // number under the writer's lock; callers that need an event ordered with a
 // state change must call Emit while holding the lock that protects that state.
 type Writer struct {
-	mu  sync.Mutex
-	f   *os.File
-	w   *bufio.Writer
-	seq int64
-	n   int64
+	mu   sync.Mutex
+	f    *os.File
+	w    *bufio.Writer
+	seq  int64
+	n    int64
+	aseq int64 // lock-free sequence for buffered emission
 }
 
 // Create opens path for writing.
@@ -57,6 +60,27 @@ func (w *Writer) Raw(v any) {
 	w.w.Write(b)
 	w.w.WriteByte('\n')
 	w.n++
+}
+
+// NextSeq reserves the next global sequence number without taking the writer lock
+// (for per-goroutine buffers flushed later with EmitBuffered).
+func (w *Writer) NextSeq() int64 { return atomic.AddInt64(&w.aseq, 1) }
+
+// EmitBuffered writes events that already carry a "seq" obtained from NextSeq, sorted by it.
+// Do not mix with Emit on the same Writer between two flushes.
+func (w *Writer) EmitBuffered(evs []map[string]any) {
+	sort.Slice(evs, func(i, j int) bool { return evs[i]["seq"].(int64) < evs[j]["seq"].(int64) })
+	w.mu.Lock()
+	defer w.mu.Unlock()
+	for _, ev := range evs {
+		b, err := json.Marshal(ev)
+		if err != nil {
+			panic(fmt.Sprintf("vtrace: %v", err))
+		}
+		w.w.Write(b)
+		w.w.WriteByte('\n')
+		w.n++
+	}
 }
 
 // Count returns the number of lines written.
